@@ -46,6 +46,8 @@ def units(tier, seed):
                 us.append(('lrslice/%d/%s/%d' % (ki, vary, fi), {'kind': 'lrslice', 'ki': ki, 'vary': vary, 'fi': fi}))
     for ml in range(2, 65, 2):
         us.append(('lr/%d' % ml, {'kind': 'lr', 'ml': ml, 'count': 200 if tier != 'quick' or ml <= 16 else 60}))
+    for ml in (96, 128, 130, 144, 160, 256, 1024, 4096):            # declared domains far beyond the dense range: halves of 48..2048 bytes
+        us.append(('lr/%d' % ml, {'kind': 'lr', 'ml': ml, 'count': 20}))
     us.append(('lr-contracts', {'kind': 'lrc'}))
     return us
 
@@ -331,7 +333,11 @@ def run_unit(p, tier, seed):
                 r['states'] += 1
                 r['transitions'] += 2
                 r['nontrivial'] += 1 if any(m) else 0
-                y = prp(key, m)
+                try:
+                    y = prp(key, m)
+                except Exception as e:
+                    r.v(PROPERTY, 'HmacLubyRackoffPRP', 'raises', '%s:%s' % (core.exc_site(e), type(e).__name__), case, 'an image of %d bytes' % ml, core.exc_text(e))
+                    break
                 if len(y) != ml:
                     r.v(PROPERTY, 'HmacLubyRackoffPRP', 'length', 'output', case, ml, len(y))
                 if prp(key, m) != y:
